@@ -65,6 +65,9 @@ def lit_src(v):
 PRELUDE = '''def f():
     return [1, 2]
 
+def f2():
+    return [[2], [1]]
+
 def g(q):
     return q
 
@@ -418,7 +421,8 @@ def run_heap(ctx, stats):
             vlib.tlc(ctx, "AspHeap", "MC_AspHeap.cfg", workers=8, timeout=1200)
         # tlc -simulate prints every successor of every visited state (prefix-closed): ~100-200 cases per step
         # quick: all programs of 2 statements + all of the shape literal; anything; mutation (aliasing probes)
-        by, note = gen_heap(ctx, "h", ["GEN_AspHeap_2.cfg", "GEN_AspHeap_3m.cfg"], ["GEN_AspHeap_2.cfg", "GEN_AspHeap_3.cfg"],
+        by, note = gen_heap(ctx, "h", ["GEN_AspHeap_2.cfg", "GEN_AspHeap_3m.cfg", "GEN_AspHeap_3c.cfg", "GEN_AspHeap_4n.cfg"],
+                            ["GEN_AspHeap_2.cfg", "GEN_AspHeap_3.cfg", "GEN_AspHeap_3c.cfg", "GEN_AspHeap_4n.cfg"],
                             "SIM_AspHeap.cfg", 1, 20, 7)
     M = Menus(note)
     cases = [c for c in by.values() if c["prog"]]
